@@ -82,7 +82,8 @@ def programs():
                   "callsub as last instruction", "subroutine called twice", "nested subroutines", "recursive subroutine",
                   "subroutine before main", "subroutine that exits the program", "call inside a loop", "return point that is a jump target",
                   "mutual recursion", "fall off the end", "subroutine path falls off the end", "retsub in the main program",
-                  "retsub in the main program next to a subroutine"):
+                  "retsub in the main program next to a subroutine", "comments and blank lines", "version 3 program (no subroutines yet)",
+                  "program without a version line", "instructions the optimisation detectors report"):
             PROGRAMS[k] = SHAPES[k]
     return PROGRAMS
 
@@ -731,3 +732,112 @@ def rule_main_regex(ctx, rep):
             rep.check(sorted(got[match_colour]) == want_match_lines and sorted(got[cov_colour]) == want_cov_lines, rule, f"{pname} / {label} => {pat!r}: colours", where,
                       {"match": sorted(got[match_colour]), "covered": sorted(got[cov_colour])}, {"match": want_match_lines, "covered": want_cov_lines},
                       why="the exported graph does not mark the matches and the covered instructions", sample={"program": pname, "label": label, "pattern": pat})
+
+
+def rule_num_ranges(ctx, rep):
+    rule = "T-RANGE"
+    rep.rule(rule, "the short form in which the transaction-context export writes a set of group sizes / indices (`1 2 3 5..9 11`) denotes exactly "
+                   "that set: every subset of 0..9 and a few wider ones, decoded by expanding a..b")
+    w = ctx.world
+    prs = printer_classes(ctx)
+    rep.require("transaction-context" in prs, "transaction-context printer not found")
+    pc = prs["transaction-context"]
+    c, st = pc.find("_repr_num_list")
+    rep.require(st is not None, "transaction-context printer has no _repr_num_list")
+    f = w.getattr(pc, "_repr_num_list")
+    where = f"{ctx.path(c.mod.name)}:{st.lineno}"
+
+    def decode(s):
+        out = []
+        for tok in s.split():
+            if ".." in tok:
+                a, b = tok.split("..")
+                out += list(range(int(a), int(b) + 1))
+            else:
+                out.append(int(tok))
+        return out
+    sets = [[i for i in range(10) if m >> i & 1] for m in range(1 << 10)]
+    sets += [list(range(1, 17)), list(range(0, 16)), [16], [1, 16], [0, 1, 2, 3], [0, 1, 2], [13, 14, 15, 16], [3, 1, 2], [5, 5, 6]]
+    bad = 0
+    for vals in sets:
+        try:
+            got = w.call(f, list(vals))
+            dec = decode(got)
+        except PyRaise as e:
+            got, dec = f"RAISES {e.exc}", None
+        except ValueError:
+            dec = None
+        ok = dec == sorted(vals)
+        if not ok:
+            bad += 1
+        if not ok and bad <= 5:
+            rep.violation(rule, f"values {vals}", where, got, " ".join(map(str, sorted(vals))) + " (or an equivalent short form)", "the annotation does not denote the computed set")
+        elif ok:
+            rep.ok(rule, {"values": vals, "text": got} if len(vals) in (0, 4, 10) else None)
+    rep.count("value sets rendered", len(sets))
+
+
+def rule_main_selection(ctx, rep):
+    rule = "T-MAIN(selection)"
+    rep.rule(rule, "the `detect` command evaluated from main() down for the ways of choosing detectors: by default every detector that applies to "
+                   "the contract's mode (stateless contract: stateless and mode-independent detectors; stateful: all but the stateless ones; "
+                   "neither: all), an explicit list in the order given, --exclude / --exclude-stateful / --exclude-stateless; an unknown or "
+                   "repeated name and contradictory options end with the tool's own message, never with an internal error")
+    w = _capture(ctx)
+    where = ctx.path(MAIN)
+    dets = detector_classes(ctx)
+    DT = "tealer.detectors.abstract_detector"
+    kinds = {n: w.getattr(c, "TYPE").name for n, c in dets.items()}
+    progs = {"STATELESS": "#pragma version 6\narg 0\npop\ntxn Amount\nbz a\nint 1\nreturn\na:\nint 1\nreturn\n",
+             "STATEFUL": "#pragma version 6\nint 0\nbyte \"k\"\napp_global_get\npop\ntxn Amount\nbz a\nint 1\nreturn\na:\nint 1\nreturn\n",
+             "ANY": "#pragma version 6\ntxn Amount\nbz a\nint 1\nreturn\na:\nint 1\nreturn\n"}
+
+    def checks_of(fields, src):
+        err, out = _run_main(ctx, w, {"subcommand": "detect", "contracts": ["c.teal"], "json": "-", **fields}, {"c.teal": src})
+        if err is not None:
+            return err, None
+        text = "\n".join(out)
+        try:
+            js = json.loads(text[text.find("{"):])
+        except ValueError:
+            return f"no JSON document: {text[:160]!r}", None
+        return js, [r.get("check") for r in (js.get("result") or [])]
+    all_names = list(dets)
+    for mode, src in progs.items():
+        js, got = checks_of({"detectors_to_run": None}, src)
+        if mode == "STATELESS":
+            want = [n for n in all_names if kinds[n] in ("STATELESS", "STATELESS_AND_STATEFULL")]
+        elif mode == "STATEFUL":
+            want = [n for n in all_names if kinds[n] != "STATELESS"]
+        else:
+            want = list(all_names)
+        # detectors that report instructions appear only when they found something: compare the path-reporting ones
+        paths = [n for n in want if not n.startswith(("constant-gtxn", "self-access", "sender-access"))]
+        gotp = [n for n in (got or []) if n in paths or n not in want]
+        rep.check(isinstance(js, dict) and js.get("success") is True and sorted(gotp) == sorted(paths), rule, f"default detectors on a contract of mode {mode}", where,
+                  js if not isinstance(js, dict) else sorted(got or []), sorted(paths), why="the default run does not use the detectors that apply to the contract's mode",
+                  sample={"mode": mode, "detectors": sorted(paths)})
+    src = progs["ANY"]
+    rows = [("explicit list keeps the order given", {"detectors_to_run": "is-updatable, rekey-to"}, ["is-updatable", "rekey-to"]),
+            ("--exclude removes a detector", {"detectors_to_run": "rekey-to,can-close-account,is-deletable", "detectors_to_exclude": "can-close-account"}, ["rekey-to", "is-deletable"]),
+            ("--exclude-stateful", {"detectors_to_run": "rekey-to,is-deletable,missing-fee-check", "exclude_stateful": True},
+             [n for n in ("rekey-to", "is-deletable", "missing-fee-check") if kinds[n] != "STATEFULL"]),
+            ("--exclude-stateless", {"detectors_to_run": "rekey-to,is-deletable,missing-fee-check", "exclude_stateless": True},
+             [n for n in ("rekey-to", "is-deletable", "missing-fee-check") if kinds[n] != "STATELESS"])]
+    for name, fields, want in rows:
+        js, got = checks_of(fields, src)
+        rep.check(isinstance(js, dict) and js.get("success") is True and got == want, rule, name, where, js if not isinstance(js, dict) else got, want)
+    for name, fields in (("unknown detector name", {"detectors_to_run": "rekey-to,no-such-detector"}), ("detector named twice", {"detectors_to_run": "rekey-to,rekey-to"})):
+        js, got = checks_of(fields, src)
+        rep.check(isinstance(js, dict) and js.get("success") is False and js.get("error"), rule, name, where,
+                  js if not isinstance(js, dict) else {"success": js.get("success"), "error": js.get("error")}, "success=false with the tool's error message",
+                  why="a wrong detector selection ends with an internal error or is silently accepted")
+    # contradictory / incomplete options: the tool prints a message and exits
+    bad = {"no subcommand": {"subcommand": None}, "detect without a contract": {"subcommand": "detect", "contracts": None, "group_config": None},
+           "detect with a contract and a group configuration": {"subcommand": "detect", "contracts": ["c.teal"], "group_config": "g.yaml"},
+           "print with --json": {"subcommand": "print", "contracts": ["c.teal"], "printers_to_run": "cfg", "json": "-"},
+           "print without a contract": {"subcommand": "print", "contracts": None, "group_config": None, "printers_to_run": "cfg"}}
+    for name, fields in bad.items():
+        err, out = _run_main(ctx, w, fields, {"c.teal": src})
+        text = "\n".join(out)
+        rep.check(err is None and "CommandLineError" in text, rule, f"rejected: {name}", ctx.path("tealer.utils.command_line.common"), err or text[:120], "CommandLineError message and exit")
